@@ -177,7 +177,7 @@ def ta_state_findings(rec, cfg, machine, prev_grants=None):
                 out.append(F('C03', 'shares-encoding', 'cpu-shares-mismatch',
                              'container %s: cpu.shares %d but granted %dm (expected %d)' % (c['id'], c['shares'], milli, shares_of(milli)), seq))
     # --- C04 memory pinning follows the allocator
-    out += mem_findings(rec, ta['libmem'], {g['id']: (g['memtype'] == 'preserve') for g in gl}, pin_mem, machine, seq,
+    out += mem_findings(rec, ta['libmem'], {g['id']: (g.get('mem_preserve')) for g in gl}, pin_mem, machine, seq,
                         managed=set(grants))
     return out
 
